@@ -10,16 +10,22 @@ def _replace(__obj, **changes):
 
     # Fix https://bugs.python.org/issue36470
     assert is_dataclass(__obj)
+    init_vars = set()
     for name, field in getattr(__obj, _FIELDS).items():
-        if field._field_type == _FIELD_INITVAR and name not in changes:
-            if field.default is not MISSING:
-                changes[name] = field.default
-            elif field.default_factory is not MISSING:
-                changes[name] = field.default_factory()
+        if field._field_type == _FIELD_INITVAR:
+            init_vars.add(name)
+            if name not in changes:
+                if field.default is not MISSING:
+                    changes[name] = field.default
+                elif field.default_factory is not MISSING:
+                    changes[name] = field.default_factory()
 
     result = replace_(__obj, **changes)
     if hasattr(__obj, FIELDS_SET_ATTR):
-        set_fields(result, *fields_set(__obj), *changes, overwrite=True)
+        # InitVar are not fields
+        set_fields(
+            result, *fields_set(__obj), *(changes.keys() - init_vars), overwrite=True
+        )
     return result
 
 
